@@ -122,14 +122,22 @@ def leafPathsAsIs (pm : List Path) : List Path := leafAdj (sortPaths pm)
 
 /-! ### the error pipeline -/
 
+/-- one error reported by the validator for a value: its tag, and the paths whose values printing
+    `e.Value()` reveals — the error's own path and, for a struct, slice, array or map value, the
+    paths of everything nested in it (computed by the harness by reflection) -/
+structure Viol where
+  tag : Bytes
+  shows : List Path
+  deriving Repr, DecidableEq
+
 /-- what reflection and the validator say about one dotted path (a parameter of the model) -/
 structure Rule where
   path : Path
   /-- the path resolves to a value that has a rule of its own: a struct field with a non-empty
       `validate` tag, or a slice/array element whose container's tag has a part after `dive` -/
   resolves : Bool
-  /-- `e.Tag()` of the errors `tagValidator.Var(value, ownTag)` reports, in order -/
-  tags : List Bytes
+  /-- the errors `tagValidator.Var(value, ownTag)` reports, in order -/
+  tags : List Viol
   /-- a struct field whose JSON name is a number lies on the path (as shipped, `resolvePath` took
       every numeric segment for an index and gave up on a struct: K05d) -/
   num : Bool
@@ -167,26 +175,34 @@ structure Result where
 def ruleFor (rules : List Rule) (p : Path) : Option Rule := rules.find? fun r => r.path == p
 
 /-- the tags reported for a path: `resolvePath` fails or the tag is empty → nothing (`continue`) -/
-def ownTags (rules : List Rule) (p : Path) : List Bytes :=
+def ownTags (rules : List Rule) (p : Path) : List Viol :=
   match ruleFor rules p with
   | some r => if r.resolves then r.tags else []
   | none => []
 
 def tagPrefix : Bytes := "tag.".toList
 
-/-- `result.Add(path, "tag."+e.Tag(), msg, meta)` with the redactor applied to `path` -/
-def mkErr (o : Opts) (p : Path) (tag : Bytes) : FieldErr :=
-  { path := p, code := tagPrefix ++ tag, hidden := o.redacted.contains p }
+/-- `result.Add(path, "tag."+e.Tag(), msg, meta)`; the value is hidden when the redactor covers the
+    path or the path of anything nested in the value (after the `fix:` commit for K05f) -/
+def mkErr (o : Opts) (p : Path) (v : Viol) : FieldErr :=
+  { path := p, code := tagPrefix ++ v.tag,
+    hidden := o.redacted.contains p || v.shows.any o.redacted.contains }
+
+/-- as shipped (K05f): only the error's own path is put to the redactor, so the printed value of a
+    struct or slice reveals nested values the redactor covers -/
+def mkErrAsIs (o : Opts) (p : Path) (v : Viol) : FieldErr :=
+  { path := p, code := tagPrefix ++ v.tag, hidden := o.redacted.contains p }
 
 /-- the `for _, path := range leaves` loop of `validatePartialLeafsOnly`: `acc` is `result.Fields`,
     `own p` the tags `Var` reports for the value at `p` under its own rule (nothing if the path does
     not resolve or has no rule) -/
-def partialLoop (own : Path → List Bytes) (o : Opts) : List Path → List FieldErr → Result
+def partialLoop (mk : Opts → Path → Viol → FieldErr) (own : Path → List Viol) (o : Opts) :
+    List Path → List FieldErr → Result
   | [], acc => { fields := acc, truncated := false }
   | p :: rest, acc =>
-    let acc' := acc ++ (own p).map (mkErr o p)
+    let acc' := acc ++ (own p).map (mk o p)
     if o.maxErrors > 0 ∧ acc'.length ≥ o.maxErrors then { fields := acc', truncated := true }
-    else partialLoop own o rest acc'
+    else partialLoop mk own o rest acc'
 
 /-- the order of `Error.Sort`: by path, then by code -/
 def errLe (a b : FieldErr) : Bool :=
@@ -198,13 +214,18 @@ def sortErrs (l : List FieldErr) : List FieldErr := l.mergeSort errLe
 def maxLeaves (o : Opts) : Nat := if o.maxFields > 0 then o.maxFields else 10000
 
 /-- `validatePartialLeafsOnly` on given leaves: `none` = returns nil -/
-def partialFrom (leaves : List Path) (own : Path → List Bytes) (o : Opts) : Option Result :=
-  let r := partialLoop own o (leaves.take (maxLeaves o)) []
+def partialFrom (mk : Opts → Path → Viol → FieldErr) (leaves : List Path) (own : Path → List Viol)
+    (o : Opts) : Option Result :=
+  let r := partialLoop mk own o (leaves.take (maxLeaves o)) []
   if r.fields.isEmpty then none else some { r with fields := sortErrs r.fields }
 
 /-- `validatePartialLeafsOnly(val, cfg)` with `cfg.presence = pm` -/
 def validatePartial (pm : List Path) (rules : List Rule) (o : Opts) : Option Result :=
-  partialFrom (leafPaths pm) (ownTags rules) o
+  partialFrom mkErr (leafPaths pm) (ownTags rules) o
+
+/-- K05–K05e repaired, K05f as shipped -/
+def validatePartialF (pm : List Path) (rules : List Rule) (o : Opts) : Option Result :=
+  partialFrom mkErrAsIs (leafPaths pm) (ownTags rules) o
 
 /-- as shipped (K05c, K05d): the tags reported for a path when an element is validated with its
     container's rule and numeric field names do not resolve; outer `none` = `Var` panics -/
@@ -214,14 +235,14 @@ def ownTagsAsIs (rules : List Rule) (p : Path) : Option (List Bytes) :=
   | none => some []
 
 /-- K05c repaired, K05d as shipped: a path through a numerically named struct field does not resolve -/
-def ownTagsNum (rules : List Rule) (p : Path) : List Bytes :=
+def ownTagsNum (rules : List Rule) (p : Path) : List Viol :=
   match ruleFor rules p with
   | some r => if r.resolves && !r.num then r.tags else []
   | none => []
 
 /-- K05, K05b, K05c repaired, K05d as shipped -/
 def validatePartialNum (pm : List Path) (rules : List Rule) (o : Opts) : Option Result :=
-  partialFrom (leafPaths pm) (ownTagsNum rules) o
+  partialFrom mkErrAsIs (leafPaths pm) (ownTagsNum rules) o
 
 /-- the loop as shipped; `none` = a panic left `validatePartialLeafsOnly` -/
 def partialLoopAsIs (rules : List Rule) (o : Opts) : List Path → List FieldErr → Option Result
@@ -230,7 +251,7 @@ def partialLoopAsIs (rules : List Rule) (o : Opts) : List Path → List FieldErr
     match ownTagsAsIs rules p with
     | none => none
     | some ts =>
-      let acc' := acc ++ ts.map (mkErr o p)
+      let acc' := acc ++ ts.map (fun t => mkErrAsIs o p ⟨t, []⟩)
       if o.maxErrors > 0 ∧ acc'.length ≥ o.maxErrors then some { fields := acc', truncated := true }
       else partialLoopAsIs rules o rest acc'
 
@@ -244,19 +265,27 @@ def validatePartialAsIs (leaf : List Path → List Path) (pm : List Path) (rules
 
 /-- the loop of `formatTagErrors` over `validator.ValidationErrors` (path, tag) in the validator's
     order: add, then `if maxErrors > 0 && len >= maxErrors { Truncated = true; break }` -/
-def fullLoop (o : Opts) : List (Path × Bytes) → List FieldErr → Result
+def fullLoop (mk : Opts → Path → Viol → FieldErr) (o : Opts) :
+    List (Path × Viol) → List FieldErr → Result
   | [], acc => { fields := acc, truncated := false }
   | (p, t) :: rest, acc =>
-    let acc' := acc ++ [mkErr o p t]
+    let acc' := acc ++ [mk o p t]
     if o.maxErrors > 0 ∧ acc'.length ≥ o.maxErrors then { fields := acc', truncated := true }
-    else fullLoop o rest acc'
+    else fullLoop mk o rest acc'
 
 /-- `validateWithTags` in full mode: nil when the validator reports nothing, else
     `formatTagErrors` (which sorts) -/
-def validateFull (errs : List (Path × Bytes)) (o : Opts) : Option Result :=
+def validateFullWith (mk : Opts → Path → Viol → FieldErr) (errs : List (Path × Viol)) (o : Opts) :
+    Option Result :=
   if errs.isEmpty then none
   else
-    let r := fullLoop o errs []
+    let r := fullLoop mk o errs []
     some { r with fields := sortErrs r.fields }
+
+def validateFull (errs : List (Path × Viol)) (o : Opts) : Option Result := validateFullWith mkErr errs o
+
+/-- K05f as shipped -/
+def validateFullAsIs (errs : List (Path × Viol)) (o : Opts) : Option Result :=
+  validateFullWith mkErrAsIs errs o
 
 end Rivaas.Presence
